@@ -521,16 +521,41 @@ def _r_moved_out(name, value):
     return _get(d, name)
 
 
+def _r_ff_decl_ctor(name, value):
+    """a declaration block built on its own and handed to the rule afterwards"""
+    d = cssutils.css.CSSStyleDeclaration(cssText='%s:%s' % (name, value))
+    r = cssutils.css.CSSFontFaceRule(style=d)
+    return _single(r.style)[0]
+
+
+def _r_ff_decl_assigned(name, value):
+    d = cssutils.css.CSSStyleDeclaration(cssText='%s:%s' % (name, value))
+    r = cssutils.css.CSSFontFaceRule()
+    r.style = d
+    return _single(r.style)[0]
+
+
+def _r_decl_from_ff(name, value):
+    """the declaration block of a parsed @font-face rule given to a style rule"""
+    sheet = cssutils.parseString('@font-face{%s:%s}' % (name, value))
+    if not sheet.cssRules.length:
+        return 'dropped'
+    r = cssutils.css.CSSStyleRule(selectorText='a')
+    r.style = sheet.cssRules[0].style
+    return _single(r.style)[0]
+
+
 ORD_ROUTES = [
     ('setProperty', _r_setprop), ('setitem', _r_setitem), ('replace', _r_replace), ('propobj', _r_propobj), ('cssText', _r_csstext),
-    ('moved-out-of-font-face', _r_moved_out),
+    ('moved-out-of-font-face', _r_moved_out), ('block-moved-out-of-font-face', _r_decl_from_ff),
     ('decl-off', _r_decl_off), ('sheet-off', _r_sheet_off), ('sheet-switched', _r_sheet_switched),
     ('parseStyle-on', lambda n, v: _r_parsestyle(n, v, True)), ('parseStyle-off', lambda n, v: _r_parsestyle(n, v, False)),
 ]  # fmt: skip
 FF_ROUTES = [('ff-setProperty', _r_ff_setprop), ('ff-style-text', _r_ff_styletext), ('ff-setProperty(Property)', _r_ff_propobj),
-             ('ff-moved-in-from-style-rule', _r_ff_moved_in)]
+             ('ff-moved-in-from-style-rule', _r_ff_moved_in), ('ff-rule(style=block)', _r_ff_decl_ctor), ('ff-rule.style=block', _r_ff_decl_assigned)]
 # quick tier, pairs that are neither valid nor the representative of their value class
-LIGHT_ROUTES = {'setProperty', 'cssText', 'sheet-off', 'parseStyle-off', 'ff-setProperty', 'ff-setProperty(Property)', 'moved-out-of-font-face'}
+LIGHT_ROUTES = {'setProperty', 'cssText', 'sheet-off', 'parseStyle-off', 'ff-setProperty', 'ff-setProperty(Property)', 'moved-out-of-font-face', 'ff-rule(style=block)',
+                'block-moved-out-of-font-face'}
 
 
 def route(fn, *a):
